@@ -1,7 +1,7 @@
 """C14 — delegations, unbonding and payouts: decided structural clauses (DESIGN.md §5 C14)."""
 from vlib import q
 from vlib.cfg import cfg_of
-from vlib.prov import peel, fmt, is_param, contains, alts, leaves, is_param_field, same_origin
+from vlib.prov import peel, fmt, is_param, contains, alts, leaves, is_param_field, same_origin, just
 
 LEVEL = "other"
 LEVEL_TEXT = (
@@ -42,6 +42,7 @@ def check(ctx, cfg):
     r7(ctx, cfg)
     r8(ctx, cfg)
     r9(ctx, cfg)
+    r10(ctx, cfg)
 
 
 def r7(ctx, cfg):
@@ -514,7 +515,8 @@ def r4(ctx, cfg, R="C14.R4", parts=("Delegate", "Undelegate", "Redelegate")):
     cf = cfg_of(f)
 
     def msgf(o, name):
-        return contains(o, lambda x: is_param_field(x, "msg", name))
+        # (the field of the message itself, not something computed from it)
+        return just(o, lambda x: is_param_field(x, "msg", name))
 
     if "Delegate" in parts:
         # Delegate
@@ -896,3 +898,57 @@ def _mentions_field(P, fn, op, site, name):
             if src and any(e["k"] == "field" and e.get("name") == name for e in src["p"]):
                 return True
     return False
+
+
+def r10(ctx, cfg):
+    """"staking parameters fixed at setup" / "naming an unknown validator fails": what *known* means.  setup stores the parameters it
+    is given; add_validator refuses an address that is already there and otherwise records the validator in all three
+    places the other operations read (VALIDATOR_MAP, VALIDATORS, VALIDATOR_INFO) before it reports success."""
+    F, P = cfg.facts, cfg.prov
+    R = "C14.R9"
+    key = SK + "setup"
+    f = ctx.need_fn(R, key)
+    if f is not None:
+        sv = store_calls(P, f, ("item", "staking::STAKING_INFO"), ("save",))
+        ok = len(sv) == 1
+        if ok:
+            a = P.call_args(f, sv[0][1], sv[0][0])
+            ok = is_param(a[2], "staking_info") and contains(a[1], lambda x: x[0] == "call" and x[1] == "prefixed_storage::prefixed" and is_param(x[2][0], "storage"))
+            # (success = the save's own verdict: `save(..)?; Ok(())` or `save(..).map_err(Into::into)`)
+            ok = ok and all(q.succeeded(q.dominating_conditions(P, f, site[0]), "cw_storage_plus::Item::save") or
+                            contains(v, lambda x: x[0] == "call" and x[1] == "cw_storage_plus::Item::save") for site, v in q.success_return_sites(P, f))
+        ctx.ob(R, key, "setup-stores-the-given-parameters", ok, "setup does not save the given StakingInfo (or can succeed without)", fn=f,
+               sample="STAKING_INFO.save(prefixed(storage, NAMESPACE_STAKING), &staking_info)?")
+    key = SK + "add_validator"
+    f = ctx.need_fn(R, key)
+    if f is not None:
+        VMAP, VLIST = ("item", "staking::VALIDATOR_MAP"), ("item", "staking::VALIDATORS")
+        def addr_of_validator(o):
+            o = peel(o)
+            return o[0] == "field" and o[2] == "address" and is_param(o[1], "validator")
+        ms = store_calls(P, f, VMAP, ("save",))
+        vs = [(b, t) for b, t in f.calls() if t["callee"]["key"].startswith("cw_storage_plus::Deque::push_back") and peel(P.call_args(f, t, b)[0]) == VLIST]
+        is_ = store_calls(P, f, VINFO, ("save",))
+        ok = len(ms) == 1 and len(vs) == 1 and len(is_) == 1
+        d = "expected one save of VALIDATOR_MAP, one push_back on VALIDATORS and one save of VALIDATOR_INFO (found %d/%d/%d)" % (len(ms), len(vs), len(is_))
+        if ok:
+            ma, va, ia = P.call_args(f, ms[0][1], ms[0][0]), P.call_args(f, vs[0][1], vs[0][0]), P.call_args(f, is_[0][1], is_[0][0])
+            info = peel(ia[3])
+            ok = addr_of_validator(ma[2]) and is_param(ma[3], "validator") and is_param(va[2], "validator") and addr_of_validator(ia[2]) and \
+                info[0] == "call" and info[1] == "staking::ValidatorInfo::new" and peel(info[2][0])[0] == "field" and peel(info[2][0])[2] == "time" and is_param(peel(info[2][0])[1], "block")
+            d = "the validator is not recorded as (MAP[address] = validator, VALIDATORS += validator, INFO[address] = ValidatorInfo::new(block.time))"
+        ctx.ob(R, key, "validator-recorded-in-all-three-places", ok, d, fn=f, sample="VALIDATOR_MAP.save, VALIDATORS.push_back, VALIDATOR_INFO.save")
+        if ok:
+            cf = cfg_of(f)
+            sites = [ms[0][0], vs[0][0], is_[0][0]]
+            out = [b for (b, i), v in q.success_return_sites(P, f) if not all(cf.dominates(s0, b) for s0 in sites)]
+            ctx.ob(R, key, "succeeds-only-after-recording", not out, "add_validator can succeed at block(s) %s without all three writes" % sorted(set(out)), fn=f,
+                   sample="Ok(()) dominated by the three writes")
+            # an address that is already there is refused before anything is written
+            def absent(b):
+                return any(c[0] == "bool" and c[1][0] in ("is_some", "is_none") and (c[1][2] is (c[1][0] == "is_none")) and
+                           contains(c[1][1][0], lambda x: x[0] == "call" and x[1] == "cw_storage_plus::Map::may_load" and peel(x[2][0]) == VMAP) or
+                           c[0] == "variant_in" and c[2] == ("None",) and contains(c[1], lambda x: x[0] == "call" and x[1] == "cw_storage_plus::Map::may_load" and peel(x[2][0]) == VMAP)
+                           for e, c in q.dominating_conditions(P, f, b))
+            ctx.ob(R, key, "existing-address-refused-before-writing", all(absent(b) for b in sites),
+                   "a write of add_validator is not under `VALIDATOR_MAP.may_load(address) is None`", fn=f, sample="if may_load(..).is_some() { bail! }")
